@@ -3403,7 +3403,7 @@ def run(ctx) -> Result:
     rnd = [random_case(rng, "thread") for _ in range(3000 if ctx.thorough else 250)]
     timed("thread-random", check_pool_cases, res, rnd, rng, "thread-random", t_pool)
     prc = exhaustive_cases(rng, 3 if ctx.thorough else 2, "oFS", backend="process", spare_worker_upto=99 if ctx.thorough else 1)
-    prc += [random_case(rng, "process", 3, 6) for _ in range(400 if ctx.thorough else 16)]
+    prc += [random_case(rng, "process", 3, 6) for _ in range(120 if ctx.thorough else 16)]
     timed("process-gated", check_pool_cases, res, prc, rng, "process-gated", t_pool)
     n_doe = 240 if ctx.thorough else 18
     doe_cases = [c["case"] for c in corpus if c.get("kind") == "doe"]
